@@ -1,8 +1,10 @@
 """Rule ASTs, their rendering into every documented rule-syntax flavour, and an independent rule-by-rule
 reference matcher (used by C01, C02, C11, C19).  Nothing here imports the repository's router.
 
-AST:  rule = list of segments;  segment = ['lit', text] | ['w', name_or_None, filter_or_None, arg_or_None]
-      filter in {None, 'int', 'float', 're', 'path'};  arg = regular expression text for 're', None otherwise.
+AST:  rule = list of segments;  segment = ['lit', text] | ['w', name_or_None, filter_or_None, arg_or_None] | ['w', name, 'rex', regex, selector]
+      filter in {None, 'int', 'float', 're', 'path', 'rex'};  arg = regular expression text for 're' / 'rex', None otherwise.
+      rex (with a selector [n]): the expression is matched once at the cursor, the wildcard is bound to the first group that took part, and the
+      rule continues only if that group's number is the selector (this is how one wildcard position branches by alternative).
 The harness knows each rule's structure from the AST, never from the repository's parser.
 """
 import functools
@@ -13,12 +15,19 @@ from hypothesis import strategies as st
 LIT_PIECES = ['a', 'b', 'ab', 'abc', 'c', '/', '/', '/', '/', '1', '12', '-', '.', 'é', '日', 'le', 'end', 'x', 'to', '_', 'A']
 NAMES = ['a', 'b', 'c', 'id', 'name', 'x', 'y', 'pth', 'user_1', '_p', 'N']
 RE_POOL = ['to.', '[a-c]+', r'\d{2}', '[^/]+', 'pro.+?(?=l)', '(?:ab)+', 'a|ab', '[0-9a-f]{1,3}', '.+', 'a*',
-           r'-?\d+', r'-?\d+(\.\d+)?', r'\d+']      # the last three are spelled like the masks of the int / float filters (but convert nothing)
+           r'-?\d+', r'-?\d+(\.\d+)?', r'\d+',
+           # assertions that look at the text around the cursor: each wildcard's expression sees its own text from the cursor on, nothing before it
+           r'^[a-z]+$', r'\B\d+', r'(?<![a-z])\d+', r'\bto.', r'^\d+', r'[a-z]+\b', r'\A[a-c]+']      # the last three are spelled like the masks of the int / float filters (but convert nothing)
 
 
 RE_VALUES = {'to.': ['tom', 'tos', 'to/', 'tok'], '[a-c]+': ['abc', 'ab', 'a', 'cab'], r'\d{2}': ['12', '07'], '[^/]+': ['tom', 'a b', 'é', '12'],
              'pro.+?(?=l)': ['profi', 'pro/x', 'prol'], '(?:ab)+': ['ab', 'abab'], 'a|ab': ['a'], '[0-9a-f]{1,3}': ['ff', '0', 'a1b'], '.+': ['x', 'a/b'], 'a*': ['a', 'aa'],
              '.+?(?=/end)': ['x', 'a/b'], r'-?\d+': ['42', '-007', '0'], r'-?\d+(\.\d+)?': ['1.50', '3', '-0.0'], r'\d+': ['12', '007']}
+
+
+REX_POOL = [(r'(a\d+)|(b\d+)', 1), (r'(a\d+)|(b\d+)', 2), ('(png)|(jpg)', 1), ('(png)|(jpg)', 2), ('(x+)|(y+)|(z+)', 3), ('(to.)|(ab)', 1)]
+RE_VALUES.update({r'^[a-z]+$': ['bob', 'tom'], r'\B\d+': ['12', '7'], r'(?<![a-z])\d+': ['12', '007'], r'\bto.': ['tom', 'to/'], r'^\d+': ['42'], r'[a-z]+\b': ['tom', 'ab'],
+                  r'\A[a-c]+': ['abc', 'a'], r'(a\d+)|(b\d+)': ['a1', 'b22', 'a07'], '(png)|(jpg)': ['png', 'jpg'], '(x+)|(y+)|(z+)': ['x', 'yy', 'zzz'], '(to.)|(ab)': ['tom', 'ab']})
 
 
 def merge(ast):
@@ -65,7 +74,7 @@ def wild_regex(seg, tail):
         return r'-?\d+'
     if f == 'float':
         return r'-?\d+(\.\d+)?'
-    if f == 're':
+    if f in ('re', 'rex'):
         return arg
     if f == 'path':
         return '.+(?=%s)' % re.escape(tail) if tail else '.+$'
@@ -83,7 +92,7 @@ def convert(seg, text):
 # ------------------------------------------------------------------ rendering
 def _flavours(seg, next_char, spell):
     """All rule-text spellings of one wildcard that denote exactly this segment."""
-    _, name, f, arg = seg
+    name, f, arg = seg[1], seg[2], seg[3]
     outs = []
     colon_ok = next_char in ('/', None)
     if f is None:
@@ -105,6 +114,13 @@ def _flavours(seg, next_char, spell):
             else:
                 outs += (['<%s.%s()>' % (name, f), '<%s:%s()>' % (name, f), '{%s.%s()}' % (name, f), '{%s:%s()}' % (name, f)] if name
                          else ['<%s()>' % f, '<:%s()>' % f, '{%s()}' % f])
+        return outs
+    if f == 'rex':
+        sel = seg[4]
+        if name:
+            outs += ['<%s.rex(%s)[%s]>' % (name, arg, sel), '{%s.rex(%s)[%s]}' % (name, arg, sel), '<%s:rex(%s)[%s]>' % (name, arg, sel)]
+        else:
+            outs += ['<rex(%s)[%s]>' % (arg, sel), '<:rex(%s)[%s]>' % (arg, sel), '{rex(%s)[%s]}' % (arg, sel)]
         return outs
     if f == 're':
         if name:
@@ -153,7 +169,9 @@ def pattern_key(ast):
         if s[0] == 'lit':
             key.append(s[1])
         else:
-            key.append(('W', s[2], s[3] if s[2] == 're' else (following_literal(ast, i) if s[2] == 'path' else None)))
+            key.append(('W', s[2], s[3] if s[2] in ('re', 'rex') else (following_literal(ast, i) if s[2] == 'path' else None)))
+            if s[2] == 'rex':
+                key.append('#%s' % s[4])         # the selector is literal text of the pattern right after the wildcard
     return tuple(key)
 
 
@@ -165,6 +183,8 @@ def symbols(ast):
             out.extend(s[1])
         else:
             out.append(None)
+            if s[2] == 'rex':
+                out.extend(str(s[4]))
     return out[1:]          # without the leading '/'
 
 
@@ -190,6 +210,24 @@ def match(ast, path, allow_empty):
             while j < n and path[j] != '/':
                 j += 1
             text = path[i:j]
+        elif s[2] == 'rex':
+            m = re.compile(rx).match(path[i:])
+            if not m:
+                return None
+            g = next((k + 1 for k, v in enumerate(m.groups()) if v is not None), None)
+            j = i + m.end()
+            if g is None:
+                # no group took part: the selector digits must then follow literally in the path (degenerate; pools avoid it)
+                if not path.startswith(str(s[4]), j):
+                    return None
+                out.append((s[1], m.group() + str(s[4]), m.group()))
+                i = j + len(str(s[4]))
+                continue
+            if str(g) != str(s[4]):
+                return None
+            out.append((s[1], m.group(), m.group(g)))
+            i = j
+            continue
         else:
             m = re.compile(rx).match(path[i:])
             if not m:
@@ -247,7 +285,7 @@ def named(bindings):
 
 
 # ------------------------------------------------------------------ generators
-def seg_st():
+def seg_st(rex=False):
     lit = st.sampled_from(LIT_PIECES).map(lambda t: ['lit', t])
     name = st.sampled_from(NAMES) | st.none()
     wild = st.one_of(
@@ -255,6 +293,10 @@ def seg_st():
         st.tuples(name, st.just('int'), st.just(None)), st.tuples(name, st.just('float'), st.just(None)),
         st.tuples(name, st.just('re'), st.sampled_from(RE_POOL)), st.tuples(name, st.just('path'), st.just(None)),
     ).map(lambda t: ['w', t[0], t[1], t[2]])
+    rex_wild = st.tuples(name, st.sampled_from(REX_POOL)).map(lambda t: ['w', t[0], 'rex', t[1][0], t[1][1]])
+    if rex:
+        # rex wildcards are outside the stated domain of C01/C02/C19 (their selector fallback is undocumented): only C11 asks for them
+        wild = st.one_of(wild, wild, wild, rex_wild)
     return st.one_of(lit, lit, lit, wild, wild)
 
 
@@ -283,8 +325,8 @@ def _fix(ast):
 
 
 @st.composite
-def rule_st(draw, max_segs=6):
-    segs = draw(st.lists(seg_st(), min_size=0, max_size=max_segs))
+def rule_st(draw, max_segs=6, rex=False):
+    segs = draw(st.lists(seg_st(rex), min_size=0, max_size=max_segs))
     ast = _fix(segs)
     spell = 0
     for _ in range(6):
@@ -327,7 +369,7 @@ def derived_rule_st(draw, base):
         if idx:
             i = draw(st.sampled_from(idx))
             w = draw(seg_st().filter(lambda s: s[0] == 'w'))
-            ast[i] = ['w', ast[i][1], w[2], w[3]]
+            ast[i] = ['w', ast[i][1]] + list(w[2:])
     elif op == 'split_lit':
         idx = [i for i, s in enumerate(ast) if s[0] == 'lit' and len(s[1]) > 1]
         if idx:
@@ -351,10 +393,11 @@ def derived_rule_st(draw, base):
 
 VALUE_POOL = {
     None: ['tom', '12', 'a', 'ab', 'abc', 'é', 'x.y', '-3', '', 'a b', 'a\rb', 'to', 'le', '日本', '1', 'b'],
-    'int': ['12', '-3', '007', '0', '1', '-0', '99'],
+    'int': ['12', '-3', '007', '0', '1', '-0', '99', '5\u00b2', '\u00b2', '\u2460', '\u0663', '\uff15', '1\u00b9', '-\u0661'],
     'float': ['1.5', '-2.0', '3', '0.0', '1.', '12.25', '1e3'],
     're': ['tom', 'tos', 'to/', 'to', 'abc', 'ab', 'abab', '12', '123', 'profile', 'prol', 'a', 'aa', 'ff', 'x/y', '', '-007', '1.50', '42'],
     'path': ['a/b', 'this/path/to', 'x', 'a', 'end', 'a/end/b', 'le', ''],
+    'rex': ['a1', 'b22', 'png', 'jpg', 'x', 'yy', 'zzz', 'tom', 'ab', 'a07', 'q'],
 }
 
 
@@ -366,12 +409,14 @@ def path_for(draw, ast):
     for s in ast:
         if s[0] == 'lit':
             out.append(s[1])
+        elif s[2] in ('re', 'rex') and s[3] in RE_VALUES and draw(st.integers(0, 3)):
+            out.append(draw(st.sampled_from(RE_VALUES[s[3]])))
         else:
             out.append(draw(st.sampled_from(VALUE_POOL[s[2]])))
     p = ''.join(out)
     if draw(st.integers(0, 99)) < 35 and p:
         k = draw(st.integers(0, len(p)))
-        ch = draw(st.sampled_from(list('abc/1-.toé\r') + ['//', '\n', 'le', '/']))
+        ch = draw(st.sampled_from(list('abc/1-.toé\r') + ['//', '\n', 'le', '/', '\u00b2', '\u0663', '\u2460', 'w', '_']))
         op = draw(st.sampled_from(['ins', 'del', 'rep']))
         if op == 'ins':
             p = p[:k] + ch + p[k:]
